@@ -494,7 +494,7 @@ func runC11(c *Ctx) {
 
 func init() {
 	Register(&Monitor{ID: "C11", Run: func(c *Ctx) {
-		c.Rule = "0..3 shared tables with overlapping text, gaps and adjusted max_id; value streams drawing symbols, field names and annotations from inside and outside the tables; written through NewBinaryWriter(out, tables...) and NewBinaryWriterLST(out, NewLocalSymbolTable(tables, locals)). Oracle (independent decoder with and without catalog + id-space model): import declarations equal the tables given (name, version, max_id), every text is written with the lowest id carrying it, local symbols neither duplicate imported text nor stay unused, a reader holding the tables recovers every text; under a fixed table exactly the first value using outside text fails, later calls keep failing, and the bytes emitted stay a valid stream of the first so many completed values (a writer may buffer); a third of the cases call Finish after every 1-2 values (several batches through one Writer), ids being judged against the table in force at each value. Non-trivial: >= 1 symbol found in an import and >= 1 not found in any; distinct by configuration."
+		c.Rule = "0..3 shared tables with overlapping text, gaps and adjusted max_id; value streams drawing symbols, field names and annotations from inside and outside the tables; written through NewBinaryWriter(out, tables...) and NewBinaryWriterLST(out, NewLocalSymbolTable(tables, locals)), a fifth of the cases with the system symbol table itself listed among the tables. Oracle (independent decoder with and without catalog + id-space model): import declarations equal the tables given (name, version, max_id), every text is written with the lowest id carrying it, local symbols neither duplicate imported text nor stay unused, a reader holding the tables recovers every text; under a fixed table exactly the first value using outside text fails, later calls keep failing, and the bytes emitted stay a valid stream of the first so many completed values (a writer may buffer); a third of the cases call Finish after every 1-2 values (several batches through one Writer), ids being judged against the table in force at each value. Non-trivial: >= 1 symbol found in an import and >= 1 not found in any; distinct by configuration."
 		runC11(c)
 	}, Replay: func(c *Ctx, v *Violation) string {
 		var k TableCase
